@@ -23,8 +23,8 @@ theorem shapes :
     Sticky.drainCompares = ["e.expires_at < now"] ∧
     Sticky.deleteExits = [("no_header", 200, false), ("open_failed", 200, false), ("server_id", 200, false),
       ("registry_miss", 200, false), ("hit", 204, true)] ∧
-    Sticky.deleteClosesOnHit = true ∧ Sticky.exemptSuffixes = ["/health", "/{session_endpoint}"] ∧
-    Sticky.exemptCompareSafe = true := by decide
+    Sticky.deleteClosesOnHit = true ∧ Sticky.exemptSuffixes = ["/health", "/__session__"] ∧
+    Sticky.exemptCompareSafe = true ∧ Sticky.exemptCompare = "eq_or_subtree" := by decide
 
 theorem canonical_true : Sticky.canonicalCheck = true := shapes.1
 theorem checkServerId_true : checkServerId = true := shapes.2.1
@@ -208,6 +208,18 @@ theorem step_WInv (cfg : Nat → Cfg) (N : Nat) (wk : Nat) (hwk : wk < N) (ident
         fun e he => hpk e (Reg.mem_close.mp he).1⟩, Nat.le_refl _, fun _ h => Or.inl h, fun _ h => h⟩
   | use => exact ⟨⟨hm, hnd, hfe, hfm, hpk⟩, Mono.refl _ _⟩
   | noop => exact ⟨⟨hm, hnd, hfe, hfm, hpk⟩, Mono.refl _ _⟩
+  | reap at_ =>
+    simp only [stepAction, stepActionP]
+    have hsub : ∀ x ∈ (W.reg.drainExpired at_).1.entries, x ∈ W.reg.entries := fun x hx => by
+      simp only [Reg.drainExpired, List.mem_filter] at hx; exact hx.1
+    exact ⟨⟨hm, fun x hx y hy hs => hnd x (hsub x hx) y (hsub y hy) hs, fun x hx => hfe x (hsub x hx), hfm,
+      fun e he => hpk e (hsub e he)⟩, Nat.le_refl _, fun _ h => Or.inl h, fun _ h => h⟩
+  | shutdown =>
+    simp only [stepAction, stepActionP]
+    have hsub : ∀ x ∈ (W.reg.shutdown).1.entries, x ∈ W.reg.entries := fun x hx => by
+      simp only [Reg.shutdown] at hx; cases hx
+    exact ⟨⟨hm, fun x hx y hy hs => hnd x (hsub x hx) y (hsub y hy) hs, fun x hx => hfe x (hsub x hx), hfm,
+      fun e he => hpk e (hsub e he)⟩, Nat.le_refl _, fun _ h => Or.inl h, fun _ h => h⟩
 
 theorem run_WInv (cfg : Nat → Cfg) (N : Nat) (wk : Nat) (hwk : wk < N) (ident : Identity) (c : Nat) (swallow : Bool) (hid : NulFree ident)
     (script : List Action) : ∀ (W : World) (rs : RS), W.env.sidCtr + script.length ≤ 256 ^ 12 → WInv cfg N wk W →
@@ -235,6 +247,7 @@ theorem run_WInv (cfg : Nat → Cfg) (N : Nat) (wk : Nat) (hwk : wk < N) (ident 
     | closed _ => exact ⟨by simpa using h2.1, by simpa using h3⟩
     | used _ => exact ⟨by simpa using h2.1, by simpa using h3⟩
     | noop => exact ⟨by simpa using h2.1, by simpa using h3⟩
+    | env => exact ⟨by simpa using h2.1, by simpa using h3⟩
 
 /-- removing entries keeps the world invariant -/
 theorem WInv_shrink {cfg : Nat → Cfg} {N : Nat} {wk : Nat} {W : World} (r' : Reg) (cl : List Nat) (h : WInv cfg N wk W)
@@ -300,6 +313,58 @@ theorem serve_WInv {Wire : Type} [DecidableEq Wire] (C : Codec Wire) (cfg : Nat 
   | lost => exact ⟨h1, m1⟩
   | fresh => exact key _
   | resumed e0 => exact key _
+
+/-- a method dispatched without the sticky machinery can only lose registry entries to the environment -/
+theorem bypass_world (swallow : Bool) (script : List Action) : ∀ W : World,
+    ∃ r' cl, (bypassRun swallow W script).1 = { W with reg := r', closedLog := cl } ∧ ∀ x ∈ r'.entries, x ∈ W.reg.entries := by
+  induction script with
+  | nil => intro W; exact ⟨W.reg, W.closedLog, rfl, fun _ h => h⟩
+  | cons a as ih =>
+    intro W
+    have hstep : ∃ r' cl, (bypassStep W a).1 = { W with reg := r', closedLog := cl } ∧ ∀ x ∈ r'.entries, x ∈ W.reg.entries := by
+      cases a with
+      | «open» l t => exact ⟨W.reg, W.closedLog, rfl, fun _ h => h⟩
+      | close => exact ⟨W.reg, W.closedLog, rfl, fun _ h => h⟩
+      | use => exact ⟨W.reg, W.closedLog, rfl, fun _ h => h⟩
+      | noop => exact ⟨W.reg, W.closedLog, rfl, fun _ h => h⟩
+      | reap at_ => exact ⟨_, _, rfl, fun x hx => by simp only [Reg.drainExpired, List.mem_filter] at hx; exact hx.1⟩
+      | shutdown => exact ⟨_, _, rfl, fun x hx => by simp only [Reg.shutdown] at hx; cases hx⟩
+    obtain ⟨r1, cl1, h1, hs1⟩ := hstep
+    obtain ⟨r2, cl2, h2, hs2⟩ := ih (bypassStep W a).1
+    have hcomb : ∃ r' cl, (bypassRun swallow (bypassStep W a).1 as).1 = { W with reg := r', closedLog := cl } ∧
+        ∀ x ∈ r'.entries, x ∈ W.reg.entries := by
+      refine ⟨r2, cl2, ?_, fun x hx => hs1 x ?_⟩
+      · rw [h2, h1]
+      · have := hs2 x hx; rw [h1] at this; exact this
+    simp only [bypassRun]
+    generalize bypassStep W a = st at h1 hcomb
+    obtain ⟨W', o⟩ := st
+    simp only at h1
+    cases o with
+    | failed e =>
+      simp only
+      cases swallow with
+      | true => simpa using hcomb
+      | false => exact ⟨r1, cl1, by simpa using h1, hs1⟩
+    | opened _ => simpa using hcomb
+    | closed _ => simpa using hcomb
+    | used _ => simpa using hcomb
+    | noop => simpa using hcomb
+    | env => simpa using hcomb
+
+theorem handle_WInv {Wire : Type} [DecidableEq Wire] (C : Codec Wire) (cfg : Nat → Cfg) (N : Nat) (wk : Nat) (hwk : wk < N)
+    (W : World) (rq : Req Wire) (script : List Action) (swallow : Bool) (hid : NulFree rq.ident)
+    (hb : W.env.sidCtr + script.length ≤ 256 ^ 12) (h : WInv cfg N wk W) :
+    WInv cfg N wk (handle C (cfg wk) wk W rq script swallow).1 ∧ Mono wk W (handle C (cfg wk) wk W rq script swallow).1 := by
+  unfold handle
+  split
+  · obtain ⟨r', cl, hr, hsub⟩ := bypass_world swallow script W
+    generalize bypassRun swallow W script = res at hr
+    obtain ⟨W', log, err⟩ := res
+    simp only at hr ⊢
+    subst hr
+    exact ⟨WInv_shrink r' cl h hsub, Nat.le_refl _, fun _ hm => Or.inl hm, fun _ hm => hm⟩
+  · exact serve_WInv C cfg N wk hwk W rq script swallow hid hb h
 
 /-- the paths of `_SessionResource.on_delete` -/
 theorem onDelete_cases {Wire : Type} [DecidableEq Wire] (C : Codec Wire) (cfg : Cfg) (W : World) (rq : Req Wire) :
@@ -433,7 +498,7 @@ theorem reachable_inv {Wire : Type} [DecidableEq Wire] (C : Codec Wire) (cfg : N
     cases op with
     | call wk rq script swallow =>
       obtain ⟨hwk, hid, hb⟩ := hok
-      have hs := serve_WInv C n.cfg N wk hwk (n.world wk) rq script swallow hid hb (hinv.world wk)
+      have hs := handle_WInv C n.cfg N wk hwk (n.world wk) rq script swallow hid hb (hinv.world wk)
       exact ⟨hinv.put wk _ hs.1 hs.2, hcfg⟩
     | delete wk rq =>
       simp only [Net.step]
@@ -491,6 +556,53 @@ theorem reachable_inv {Wire : Type} [DecidableEq Wire] (C : Codec Wire) (cfg : N
     | setDraining wk b =>
       simp only [Net.step]
       exact ⟨hinv.put wk _ (WInv_shrink _ _ (hinv.world wk) (fun _ h => h)) ⟨Nat.le_refl _, fun _ h => Or.inl h, fun _ h => h⟩, hcfg⟩
+
+/-! #### which paths skip the sticky middleware -/
+
+theorem split_at_sep {α : Type} (x : α) (a b r t : List α) (ha : x ∉ a) (hb : x ∉ b) (h : a ++ x :: r = b ++ x :: t) : a = b := by
+  induction a generalizing b with
+  | nil =>
+    cases b with
+    | nil => rfl
+    | cons y b' =>
+      simp only [List.nil_append, List.cons_append, List.cons.injEq] at h
+      exact absurd (by rw [← h.1]; simp) hb
+  | cons y a' ih =>
+    cases b with
+    | nil =>
+      simp only [List.nil_append, List.cons_append, List.cons.injEq] at h
+      exact absurd (by rw [h.1]; simp) ha
+    | cons z b' =>
+      simp only [List.cons_append, List.cons.injEq] at h
+      rw [h.1, ih b' (fun hm => ha (by simp [hm])) (fun hm => hb (by simp [hm])) h.2]
+
+/-- a route `/{m}{sfx}` (`sfx` empty or starting with `/`) of a method `m ≠ s` is neither `/s` nor below `/s/` -/
+theorem not_exempt_one (s m sfx : List Char) (hs : '/' ∉ s) (hm : '/' ∉ m) (hne : m ≠ s)
+    (hsfx : sfx = [] ∨ ∃ t, sfx = '/' :: t) :
+    (('/' :: m ++ sfx) == ('/' :: s) || (('/' :: s) ++ ['/']).isPrefixOf ('/' :: m ++ sfx)) = false := by
+  have h1 : ('/' :: m ++ sfx) ≠ ('/' :: s) := by
+    intro h
+    simp only [List.cons_append, List.cons.injEq, true_and] at h
+    rcases hsfx with rfl | ⟨t, rfl⟩
+    · exact hne (by simpa using h)
+    · exact hs (by rw [← h]; simp)
+  have h2 : ¬ (('/' :: s) ++ ['/']) <+: ('/' :: m ++ sfx) := by
+    rintro ⟨r, hr⟩
+    simp only [List.cons_append, List.cons.injEq, true_and, List.append_assoc, List.nil_append] at hr
+    rcases hsfx with rfl | ⟨t, rfl⟩
+    · exact hm (by rw [List.append_nil] at hr; rw [← hr]; simp)
+    · exact hne (split_at_sep '/' s m r t hs hm hr).symm
+  have h2' : (('/' :: s) ++ ['/']).isPrefixOf ('/' :: m ++ sfx) = false := by
+    cases hp : (('/' :: s) ++ ['/']).isPrefixOf ('/' :: m ++ sfx) with
+    | false => rfl
+    | true => exact absurd (List.isPrefixOf_iff_prefix.mp hp) h2
+  rw [h2']
+  have h1' : (('/' :: m ++ sfx) == ('/' :: s)) = false := by
+    cases hb : (('/' :: m ++ sfx) == ('/' :: s)) with
+    | false => rfl
+    | true => exact absurd (by simpa using hb) h1
+  rw [h1']
+  rfl
 
 end Aux
 
@@ -628,6 +740,36 @@ theorem C25_delete_uniform {Wire : Type} [DecidableEq Wire] (C : Codec Wire) (n 
   rcases onDelete_cases C (n.cfg wk) (n.world wk) rq with ⟨_, _, _, _, _, _, _, _, _, _, _, hst, _⟩ | ⟨hst, _, _⟩
   · exact Or.inl (by rw [hst, hhit])
   · exact Or.inr hst
+
+/-- the three RPC routes of a method, relative to the app prefix -/
+def rpcPaths (m : List Char) : List (List Char) := ['/' :: m, '/' :: m ++ "/init".toList, '/' :: m ++ "/exchange".toList]
+
+/-- **Every RPC route goes through the sticky middleware** — unless the method is literally named like a framework endpoint
+(`health`, `__session__`).  A method whose name merely *starts with* such a name (`healthcheck`, `health_report`, …) is not
+exempt, so `C25_dispatch` / `C25_lost` (stated for `serve`) govern it: the app's handling of the request IS `serve`. -/
+theorem C25_routes {Wire : Type} [DecidableEq Wire] (C : Codec Wire) (cfg : Cfg) (wk : Nat) (W : World) (rq : Req Wire)
+    (script : List Action) (swallow : Bool) (m : List Char) (hslash : '/' ∉ m)
+    (h1 : m ≠ "health".toList) (h2 : m ≠ "__session__".toList) (hp : rq.path ∈ rpcPaths m) :
+    exemptPath rq.path = false ∧ handle C cfg wk W rq script swallow = serve C cfg wk W rq script swallow := by
+  have hsfx : ∃ sfx, rq.path = '/' :: m ++ sfx ∧ (sfx = [] ∨ ∃ t, sfx = '/' :: t) := by
+    simp only [rpcPaths, List.mem_cons, List.not_mem_nil, or_false] at hp
+    rcases hp with h | h | h
+    · exact ⟨[], by simpa using h, Or.inl rfl⟩
+    · exact ⟨"/init".toList, h, Or.inr ⟨_, rfl⟩⟩
+    · exact ⟨"/exchange".toList, h, Or.inr ⟨_, rfl⟩⟩
+  obtain ⟨sfx, hpath, hs⟩ := hsfx
+  have hex : exemptPath rq.path = false := by
+    have e1 := not_exempt_one "health".toList m sfx (by decide) hslash h1 hs
+    have e2 := not_exempt_one "__session__".toList m sfx (by decide) hslash h2 hs
+    unfold exemptPath
+    rw [shapes.2.2.2.2.2.2.2.2.2.2.2.2.2.2.2.2.2.2.2.2.1, shapes.2.2.2.2.2.2.2.2.2.2.2.2.2.2.2.2.2.2.2.2.2.2, hpath]
+    simp only [List.any_cons, List.any_nil, Bool.or_false]
+    have t1 : ("/health" : String).toList = '/' :: "health".toList := rfl
+    have t2 : ("/__session__" : String).toList = '/' :: "__session__".toList := rfl
+    simp only [t1, t2, beq_self_eq_true, if_true]
+    rw [e1, e2]
+    rfl
+  exact ⟨hex, by unfold handle; rw [hex]; simp⟩
 
 /-! ### non-vacuity: the hypotheses above are satisfiable, and by a state in which a token does grant access -/
 namespace NonVacuity
